@@ -499,7 +499,7 @@ struct V : RecursiveASTVisitor<V> {
       o["k"] = "MCall"; o["l"] = line(E->getBeginLoc()); o["ty"] = ty(E->getType());
       if (auto *M = X->getMethodDecl()) {
         o["fn"] = M->getQualifiedNameAsString(); o["n"] = M->getNameAsString(); o["usr"] = usrOf(M); o["const"] = M->isConst(); o["cls"] = clsName(M->getParent());
-        bool virt = M->isVirtual(); if (auto *ME = dyn_cast<MemberExpr>(X->getCallee()->IgnoreParens())) if (ME->hasQualifier()) virt = false; o["virt"] = virt;
+        bool virt = M->isVirtual(); if (auto *ME = dyn_cast<MemberExpr>(X->getCallee()->IgnoreParens())) if (ME->hasQualifier()) { virt = false; o["qual"] = true; } o["virt"] = virt;
         if (isa<CXXConversionDecl>(M)) o["conv"] = true;
       } else { o["fn"] = "<memptr>"; o["callee"] = xe(X->getCallee()); }
       o["obj"] = xe(X->getImplicitObjectArgument()); o["args"] = xargs(X->arguments());
